@@ -35,7 +35,7 @@ TraceInit == /\ Init /\ role0 = "none" /\ l = 1 /\ bad = <<>>
 TReset == /\ Is("Reset") /\ Consume /\ UNCHANGED bad
           /\ role0' = E.role /\ cur' = E.role /\ active' = TRUE
           /\ sess' = [i \in 1..NSess |-> NoSess]
-          /\ logins' = 0 /\ cached' = E.role /\ epoch' = 0 /\ last' = NoCall /\ steps' = 0 /\ hist' = <<>>
+          /\ nlog' = 0 /\ logins' = 0 /\ cached' = E.role /\ epoch' = 0 /\ last' = NoCall /\ steps' = 0 /\ hist' = <<>>
 
 \* grants: the real server's decision is taken from the log and judged
 TOpenSession == /\ Is("OpenSession") /\ Consume
@@ -44,20 +44,20 @@ TOpenSession == /\ Is("OpenSession") /\ Consume
                         /\ Judge(GrantRec(0, TRUE, E.db))
                         /\ sess' = OpenSessionEffect(E.s, E.db)
                    ELSE UNCHANGED <<sess, bad>>
-                /\ UNCHANGED <<role0, cur, active, logins, cached, epoch, last, steps, hist>>
+                /\ UNCHANGED <<role0, cur, active, nlog, logins, cached, epoch, last, steps, hist>>
 TLogin == /\ Is("Login") /\ Consume
           /\ IF E.granted
              THEN /\ sess[E.s].st = "none"
                   /\ Judge(GrantRec(0, TRUE, "none"))
-                  /\ sess' = LoginEffect(E.s) /\ logins' = logins + 1 /\ cached' = cur
-             ELSE UNCHANGED <<sess, bad, logins, cached>>
+                  /\ sess' = LoginEffect(E.s) /\ nlog' = nlog + 1 /\ logins' = logins + 1 /\ cached' = cur
+             ELSE UNCHANGED <<sess, bad, nlog, logins, cached>>
           /\ UNCHANGED <<role0, cur, active, epoch, last, steps, hist>>
 TUseDatabase == /\ Is("UseDatabase") /\ Consume
                 /\ IF E.granted
                    THEN /\ Judge(GrantRec(E.s, FALSE, E.db))
                         /\ sess' = UseDatabaseEffect(E.s, E.db)
                    ELSE UNCHANGED <<sess, bad>>
-                /\ UNCHANGED <<role0, cur, active, logins, cached, epoch, last, steps, hist>>
+                /\ UNCHANGED <<role0, cur, active, nlog, logins, cached, epoch, last, steps, hist>>
 
 \* environment steps: the actions of Auth.tla
 TSetPermission == Is("SetPermission") /\ Consume /\ SetPermission(E.p) /\ UNCHANGED bad
